@@ -349,10 +349,41 @@ def run_c16(chk):
                           {"ast": asts[i], "text": base[i]["text"], "scenario": sid}))
         if any(t.get("sc") for _, t, _, _ in A.flat_tasks(asts[i])):
             nontriv += 1
-    chk.cov["evaluations"] += len(singles)
+    # the model's `projection` (Model/Scenarios: what the C16 theorems speak about) against the single-scenario project written
+    # above for the real code: base project + the scenario's override list -> the same raw project, task by task
+    from .. import modelio
+    from ..core import run_driver
+    preqs, pown = [], []
+    for i, sid, q in singles:
+        p = asts[i]
+        try:
+            basereq = modelio.build_request(p, None)
+            want = modelio.build_request(q, None)
+        except modelio.FloatBoundary:
+            continue
+        ovs = []
+        for n, (fid, t, par, _) in enumerate(A.flat_tasks(p)):
+            ov = A.effective_override(p, t, sid)
+            if ov:
+                eh = A.effort_hours(ov["effort"]) if ov.get("effort") else None
+                ovs.append({"task": n, "effort": None if eh is None else [eh.numerator, eh.denominator],
+                            "start": ov.get("start"), "stop": ov.get("end")})
+        preqs.append("J " + json.dumps({"op": "proj", "base": basereq, "ovs": ovs, "want": want}))
+        pown.append((i, sid, len(ovs)))
+    acc = chk.cov.setdefault("theorem_instances", {})
+    for (i, sid, nov), mo in zip(pown, run_driver(preqs) if preqs else []):
+        a = json.loads(mo[2:]) if mo.startswith("J ") else None
+        acc["projection_pairs"] = acc.get("projection_pairs", 0) + 1
+        acc["projection_pairs_with_overrides"] = acc.get("projection_pairs_with_overrides", 0) + (1 if nov else 0)
+        if a is None or not a["same"] or a["overrides"] != nov:
+            acc["projection_fail"] = acc.get("projection_fail", 0) + 1
+            dis.append({"stream": "projection", "ast": asts[i], "scenario": sid,
+                        "diffs": [f"model: projection of the base project under the overrides of scenario {sid} is not the single-scenario project the real code was run on: {mo[:200]}"]})
+    chk.cov["evaluations"] += len(singles) + len(preqs)
     chk.cov["distinct_nontrivial"] = nontriv
     chk.cov["rule"] = ("projects with 2-3 (nested) scenarios and scenario-specific effort / start / end overrides (dates also on containers without a date of their own) scheduled by the real code; each scenario's "
                        "dates, ledgers and limit counters must equal those of the single-scenario text with the overrides (own or inherited from the "
-                       "parent scenario) applied; multi-scenario runs also compared scenario by scenario with the Lean model; non-trivial = "
+                       "parent scenario) applied; multi-scenario runs also compared scenario by scenario with the Lean model, and the model's `projection` of the base project "
+                       "under each scenario's override list with that single-scenario project (driver op `proj`); non-trivial = "
                        "(project, scenario) pairs of projects that declare an override")
     return conclude(chk, dis, lambda: found)
